@@ -194,6 +194,19 @@ def r09_5(prog: Program, rep: Report):
                 for g, pol in p.guards():
                     if pol and T.contains(g, lambda s: T.is_call_to(s, f"{C.INSP}.issubscriptedgeneric")) and not diverted:
                         admits_subscripted = True
+    # every reference that becomes (a component of) a cyclic-flagged node says which module its name lives in: without
+    # `module=` the name is looked for by walking the stack of whoever first builds a routine for it
+    moduleless = []
+    for p in ps:
+        for tm in p.all_terms():
+            for s_ in T.walk(tm):
+                if _is_typenode(s_) and node_args(s_).get("cyclic") == ("const", True):
+                    for role in ("type", "unwrapped"):
+                        a_ = node_args(s_).get(role)
+                        if a_ is not None and T.is_call_to(a_, "typelib.py.refs.forwardref") and "module" not in dict(a_[3]):
+                            moduleless.append(role)
+    if calls or moduleless:
+        rep.check(not moduleless, "R09.5", q, f.loc, "both references of a deferred class carry its module", f"the `{(sorted(set(moduleless)) or ['?'])[0]}` reference of a deferred class is made without `module=`: its name is resolved from the call stack of whoever first needs it (another module's class of that name, or NameError) instead of in the module of the class", detail="cut-reference-module")
     if not calls:
         rep.held("R09.5", q, f.loc, "the cut does not synthesise forward references", nontrivial=False)
         rep.held("R09.5", q, f.loc, "no module is synthesised", detail="module", nontrivial=False)
